@@ -95,6 +95,16 @@ def gen_ops(rng, depth, budget, fid, npool=4):
 
 
 _PRISTINE = []
+_THEME_FILES = {}
+
+
+def _theme_open(path, mode="r", *args, **kwargs):
+    """File seam for Theme.read: sim:// paths are served from memory, anything else is real."""
+    if str(path) in _THEME_FILES:
+        return io.StringIO(_THEME_FILES[str(path)])
+    import builtins
+
+    return builtins.open(path, mode, *args, **kwargs)
 
 
 def _pristine_defaults():
@@ -454,6 +464,31 @@ class Prog:
                 # is attributed to the finding: the read-back must equal the theme with its names folded
                 sig = "config-names-lowercased" if mixed and back.styles == folded else "config-roundtrip"
                 (late.append if sig == "config-names-lowercased" else lambda a: self._v(*a))(("config", sig, "Theme.config does not read back equal: %r" % [(k, str(theme.styles[k]), str(back.styles.get(k))) for k in diff]))
+            # the same through the path API, Theme.read(path, inherit=...): the config text sits in a
+            # simulated file behind rich.theme's `open` (module global shadowing the builtin)
+            import rich.theme as _rt
+
+            path = "sim://theme-%d.ini" % ti
+            _THEME_FILES[path] = text
+            _rt.open = _theme_open
+            try:
+                for inh_flag, want in ((False, dict(theme.styles)), (True, None)):
+                    got_t = self.Theme.read(path, inherit=inh_flag)
+                    self.probes["config_reads_by_path"] = self.probes.get("config_reads_by_path", 0) + 1
+                    if want is None:
+                        want = dict(self.defaults)
+                        want.update(theme.styles)
+                    if got_t.styles != want:
+                        want_folded = {k.lower(): v for k, v in theme.styles.items()}
+                        if inh_flag:
+                            want_folded = dict(self.defaults, **want_folded)
+                        sig = "config-names-lowercased" if mixed and got_t.styles == want_folded else "config-roundtrip"
+                        diff = [k for k in set(want) | set(got_t.styles) if got_t.styles.get(k) != want.get(k)][:3]
+                        (late.append if sig == "config-names-lowercased" else lambda a: self._v(*a))(
+                            ("config", sig, "Theme.read(path, inherit=%r) of the theme's own config text differs at %r (%d styles read, %d expected)" % (
+                                inh_flag, diff, len(got_t.styles), len(want))))
+            finally:
+                _THEME_FILES.pop(path, None)
             # the same text read as an inheriting theme: the defaults plus the entries
             stream.seek(0)
             inh = self.Theme.from_file(stream)
@@ -507,8 +542,8 @@ class Prog:
 
 
 C20.rule = ("balanced histories (<=14/30 operations, nesting <=4) over push_theme/pop_theme (in try/finally), use_theme blocks (15% entering the same context object twice), get_style, refused pops of the "
-            "base theme and injected exceptions caught at seeded outer levels; 25% wrapped in a Live block; after every step every name of a 12-name "
-            "universe is looked up and compared with the reference model; non-trivial = more than two full look-up rounds; distinct = distinct cases")
+            "base theme and injected exceptions caught at seeded outer levels; 25% wrapped in a Live block; after every step every name of a 16-name "
+            "universe (mixed-case names included) is looked up -- in 25% of the histories every third time by a helper thread -- and compared with the reference model; non-trivial = more than two full look-up rounds; distinct = distinct cases")
 C20.components_real = ["rich.theme (Theme, ThemeStack, from_file, config)", "rich.console (get_style, push/pop/use_theme)", "rich.style", "rich.live (wrapped variant)"]
 C20.components_stub = ["file -> SimFile", "config file -> io.StringIO text stream", "threading/clock -> dsim (unused by the property)"]
 C20.assumptions = ["a bare push_theme always has its pop_theme in a finally of the client (the property speaks of 'the matching push')",
